@@ -76,7 +76,7 @@ def run_demo(pid, n, release):
     """-> (passes, transcript)"""
     d = SRC % pid
     prof = "--release" if release else ""
-    prefer_rs = os.path.exists("%s/demo%d.rs" % (d, n)) and os.path.exists("%s/run_demo.sh" % d)
+    prefer_rs = os.path.exists("%s/demo%d.rs" % (d, n)) and (os.path.exists("%s/run_demo.sh" % d) or ROUND == "3")
     if os.path.exists("%s/demo%d.yl" % (d, n)) and not prefer_rs:
         rc, out = sh("cargo build --manifest-path %s/Cargo.toml --offline -q %s -p yarel-cli >/dev/null 2>&1; cargo run --manifest-path %s/Cargo.toml --offline -q %s -p yarel-cli -- demo%d.yl 2>/dev/null" % (
             WT, prof, WT, prof, n), cwd=d, timeout=600)
@@ -93,7 +93,7 @@ def run_demo(pid, n, release):
         if "#[test]" in src:
             dst = "%s/yarel/tests/demo%d.rs" % (WT, n)
             shutil.copy("%s/demo%d.rs" % (d, n), dst)
-            rc, out = sh("cargo test --offline %s -p yarel --test demo%d 2>&1 | tail -25" % (prof, n), cwd=WT, timeout=900)
+            rc, out = sh("cargo test --offline %s -p yarel --features verif_hooks --test demo%d 2>&1 | tail -25" % (prof, n), cwd=WT, timeout=900)
             os.remove(dst)
             return ("test result: ok" in out), out[-1500:]
         if ROUND == "1":
@@ -136,6 +136,7 @@ def main():
         release = meta.get("build_config") == "release"
         sh("git reset -q --hard && git clean -qfd -e target", cwd=WT)
         ok_clean, tr_clean = run_demo(pid, n, release)
+        
         rc, out = sh("git apply %s || (git apply --3way %s && git reset -q)" % (patch, patch), cwd=WT)
         if rc != 0 or sh("git diff --name-only --diff-filter=U", cwd=WT)[1].strip():
             results[key] = {"kept": False, "why": "patch does not apply to HEAD: " + out[-300:]}
@@ -145,6 +146,8 @@ def main():
         p_pass, p_fail, err = suite()
         rcb, outb = sh("cargo build --offline --release -p yarel-cli 2>&1 | tail -3", cwd=WT)
         ok_mut, tr_mut = run_demo(pid, n, release)
+        if ok_mut and norm(tr_mut) != norm(tr_clean):
+            ok_mut = False       # same demo, different transcript (e.g. a prefix of the expected output, then an error exit)
         kept = (p_pass == base_pass and p_fail == base_fail and ok_clean is True and ok_mut is False and rcb == 0)
         results[key] = {"kept": kept, "suite": [p_pass, p_fail], "demo_clean_passes": ok_clean, "demo_mutant_passes": ok_mut,
                         "release_build_rc": rcb, "err": err[-500:]}
@@ -157,7 +160,10 @@ def main():
             os.makedirs(dst, exist_ok=True)
             open(dst + "/patch.diff", "w").write(diff)
             for f in glob.glob((SRC % pid) + "/demo%d*" % n) + glob.glob((SRC % pid) + "/demo_repl.sh") + glob.glob((SRC % pid) + "/run_demo.sh"):
-                shutil.copy(f, dst)
+                if os.path.isdir(f):
+                    shutil.copytree(f, os.path.join(dst, os.path.basename(f)), dirs_exist_ok=True)
+                else:
+                    shutil.copy(f, dst)
             m = {"property": pid, "title": meta.get("title"), "breaks": meta.get("what_it_breaks"),
                  "needs_to_manifest": meta.get("needs_to_manifest"), "files_touched": meta.get("files_touched"),
                  "build_config": meta.get("build_config"), "round": int(ROUND), "patch_adapted_by_hand": os.path.exists(adapted),
